@@ -113,28 +113,26 @@ theorem colsOf_eq_tr (t : Bits) : colsOf t = tr 15 (rowsOf t) := by
     apply List.map_congr_left
     intro r _
     simp only [Function.comp]
-    rw [getBit_eq_getElem _ _ (by simpa using hc)]
+    rw [getBit_eq_getElem (List.map _ _) c (by simpa using hc)]
     simp
 
 /-- a column-major flattened 15×13 matrix, rearranged row-major -/
 theorem gather_trIdx_flatten (Cs : List Bits) (h : Shape 15 13 Cs) :
     gather trIdx Cs.flatten = (tr 13 Cs).flatten := by
-  simp only [trIdx, gather, tr, List.map_flatMap, List.flatMap_def, List.map_map]
+  simp only [trIdx, gather, tr, List.flatMap_def, List.map_flatten, List.map_map]
   congr 1
   apply List.map_congr_left
-  intro r _
-  simp only [Function.comp, col]
+  intro r hr
+  have hr : r < 13 := List.mem_range.mp hr
+  simp only [Function.comp, col, List.map_map]
   apply List.ext_getElem
   · simp [h.1]
   · intro c h1 h2
     have hc : c < 15 := by simpa using h1
     have hc' : c < Cs.length := by rw [h.1]; exact hc
-    simp only [List.getElem_map, List.getElem_range]
-    by_cases hr : r < 13
-    · rw [getBit_flatten 13 Cs h.2 c r hr]
-      simp [List.getD_eq_getElem?_getD, hc']
-    · have hlen := flatten_length_of_shape h
-      rw [getBit_of_le _ _ (by rw [hlen]; omega), getBit_of_le _ _ (by rw [h.2 _ (List.getElem_mem hc')]; omega)]
+    simp only [List.getElem_map, List.getElem_range, Function.comp_apply]
+    rw [getBit_flatten 13 Cs h.2 c r hr]
+    simp [List.getD_eq_getElem?_getD, hc']
 
 theorem flatten_rowsOf (t : Bits) (ht : t.length = 195) (hflat : rowIdx.flatten = List.range 195) :
     (rowsOf t).flatten = t := by
@@ -167,6 +165,6 @@ theorem mapRows_length (f : Bits → Bits) (hf : ∀ b, b.length = 15 → (f b).
   rw [mapRows_eq, flatten_length_of_shape (shape_map f hf (rowsOf_shape t))]
 
 theorem mapCols_length (f : Bits → Bits) (t : Bits) : (mapCols f t).length = 195 := by
-  simp [mapCols, trIdx, List.length_flatMap]
+  rw [mapCols, gather_length]; simp [trIdx, List.length_flatMap]; rfl
 
 end Dmr.Bptc
